@@ -9,7 +9,7 @@ PLAN = {"B2/211": 160, "B3/353": 100, "N1/43": 220, "W1/8": 180, "S2/4": 120, "S
 EVALUATOR = "vp.props.c12:ev"
 RULE = (
     "documents = sub-lattices of the bounded universes that parse; per document every registered rule (46, md999 excluded) is scanned alone, then the "
-    "default set, all rules, and the default set minus k rules chosen by source hash (k=4); oracle: multiset of (line, column, rule id, text) "
+    "default set, all rules, and the default set minus k rules chosen by source hash (k=4); plus, when a line carries failures of >= 2 rules, the same law on the document with a disable-next-line pragma naming the last-sorted of them; oracle: multiset of (line, column, rule id, text) "
     "under each set equals the union of the alone-results of its members; non-trivial = >=3 rules report on the document; distinct by source hash"
 )
 
@@ -57,9 +57,44 @@ def ev(src, opts, rank):
             diff_rules = sorted({f[2] for f in (got - want)} | {f[2] for f in (want - got)})
             kind = ("extra" if got - want else "") + ("missing" if want - got else "")
             problems.add(f"{name}|{kind}:{','.join(diff_rules)}")
+    labels = [f"rules_reporting={min(len(reporting), 6)}"]
+    # variant with a pragma: the line with most failures gets a disable-next-line pragma naming the rule whose failure
+    # sorts LAST on that line; the union law must hold for the pragma-bearing document too (suppression is per rule)
+    allf = collections.Counter()
+    for r in ids:
+        allf.update(base[r])
+    per_line = collections.defaultdict(list)
+    for (ln, col, rid, txt) in allf:
+        per_line[ln].append((col, rid))
+    multi = {ln: sorted(v) for ln, v in per_line.items() if len({x[1] for x in v}) >= 2}
+    if multi and "<!--" not in src and "\r" not in src:
+        ln = max(multi, key=lambda k: (len(multi[k]), -k))
+        named = multi[ln][-1][1].lower()
+        lines = src.split("\n")
+        if 1 <= ln <= len(lines):
+            lines.insert(ln - 1, f"<!-- pyml disable-next-line {named}-->")
+            d2 = "\n".join(lines)
+            all_args = ["-e", ",".join(i for i in ids if i not in dflt)]
+            got = _scan(d2, all_args)
+            if got is not None:
+                want = collections.Counter()
+                ok = True
+                for r in sorted(set(reporting) | {f[2].lower() for f in got}):
+                    if r not in ids:
+                        continue
+                    b = _scan(d2, alone_args(r))
+                    if b is None:
+                        ok = False
+                        break
+                    want.update(b)
+                if ok:
+                    labels.append("pragma-variant")
+                    if got != want:
+                        diff_rules = sorted({f[2] for f in (got - want)} | {f[2] for f in (want - got)})
+                        problems.add("pragma-variant|" + ("extra" if got - want else "") + ("missing" if want - got else "") + ":" + ",".join(diff_rules))
     if problems:
-        return "fail", ";".join(sorted(problems)), nt, ()
-    return "pass", None, nt, (f"rules_reporting={min(len(reporting), 6)}",)
+        return "fail", ";".join(sorted(problems)), nt, labels
+    return "pass", None, nt, labels
 
 
 def main(tier, seed):
